@@ -35,16 +35,17 @@ const (
 var copNames = []string{"Append", "Join", "Values", "Heads", "GetEntries", "Get/Has", "Len", "ToSnapshot", "ToJSONLog", "ToMultihash", "Iterator", "SetIdentity", "RawHeads", "Join(size)", "MergedFrom", "Iterator(streamed)"}
 
 type copResult struct {
-	op      int
-	entry   iface.IPFSLogEntry // Append
-	err     error
-	values  []iface.IPFSLogEntry // Values / ToSnapshot / Iterator
-	heads   []iface.IPFSLogEntry // Heads / RawHeads
-	entries []iface.IPFSLogEntry // GetEntries
-	n       int
-	done    bool
-	emap    iface.IPFSLogOrderedEntries // the value GetEntries returned
-	into    *ipfslog.IPFSLog            // MergedFrom: the log that merged the shared log
+	op        int
+	entry     iface.IPFSLogEntry // Append
+	err       error
+	values    []iface.IPFSLogEntry // Values / ToSnapshot / Iterator
+	heads     []iface.IPFSLogEntry // Heads / RawHeads
+	entries   []iface.IPFSLogEntry // GetEntries
+	n         int
+	done      bool
+	emap      iface.IPFSLogOrderedEntries // the value GetEntries returned
+	into      *ipfslog.IPFSLog            // MergedFrom: the log that merged the shared log
+	snapHeads []string                    // ToSnapshot: the head identifiers the snapshot lists
 }
 
 func runCop(h *hist, L *ipfslog.IPFSLog, other *ipfslog.IPFSLog, op int, g int, res *copResult) {
@@ -74,6 +75,9 @@ func runCop(h *hist, L *ipfslog.IPFSLog, other *ipfslog.IPFSLog, op int, g int, 
 	case cSnapshot:
 		s := L.ToSnapshot()
 		res.values = s.Values
+		for _, c := range s.Heads {
+			res.snapHeads = append(res.snapHeads, c.String())
+		}
 	case cJSONLog:
 		res.n = len(L.ToJSONLog().Heads)
 	case cMultihash:
@@ -219,6 +223,14 @@ func H_C13() {
 		case cValues, cSnapshot, cIterator, cIterStream:
 			v := r.values
 			vx.Assert("C13", len(hashSet(v)) == len(v), "a concurrent read of the values has no duplicate")
+			if r.op == cSnapshot && !bounded {
+				// the snapshot is one state: the heads it lists are the heads of the values it lists (seed C13-k)
+				sh := map[string]bool{}
+				for _, k := range r.snapHeads {
+					sh[k] = true
+				}
+				vx.Assert("C13", len(sh) == len(r.snapHeads) && sameSet(sh, refHeads(v)), "a concurrent ToSnapshot lists the heads of the values it lists (one state)")
+			}
 			if !bounded {
 				vx.Assert("C13", subset(hashSet(v), fset) && len(v) >= len(before), "a concurrent read of the values lies between the initial and the final state")
 			}
